@@ -126,6 +126,13 @@ fn insert_values_new<Store: StorageData>(
     values: &[DbKeyValue],
     result: &mut QueryResult,
 ) -> Result<(), DbError> {
+    if alias.is_some_and(|alias| alias.is_empty()) {
+        return Err(DbError::query(
+            DbErrorType::NotAllowed,
+            "Empty alias is not allowed",
+        ));
+    }
+
     let db_id = db.insert_node()?;
 
     if let Some(alias) = alias {
